@@ -179,7 +179,8 @@ def gen_single_case(rng, refine=None):
             frs.append({"H": H, "W": W, "animals": animals})
         videos.append(frs)
     return {"pipeline": "single", "scale": scale, "os": os_, "ms": ms, "max_hw": max_hw,
-            "batch": rng.randrange(1, 5), "refine": refine, "n_nodes": n_nodes, "videos": videos}
+            "batch": rng.randrange(1, 5), "refine": refine, "n_nodes": n_nodes, "videos": videos,
+            "override_hw": bool(max_hw[0] is not None and rng.random() < 0.3)}
 
 
 def gen_topdown_case(rng, refine=None, max_instances=None, counts=(0, 1, 1, 2, 2, 3), max_hw_fn=None, nv=None):
@@ -258,6 +259,61 @@ def gen_single_border(rng):
         frs.append({"H": H, "W": W, "animals": [{"centroid": [W / 2, H / 2], "pts": pts}]})
     return {"pipeline": "single", "scale": scale, "os": os_, "ms": ms, "max_hw": [None, None], "batch": rng.randrange(1, 3),
             "refine": "integral", "n_nodes": 3, "videos": [frs], "family": "integral_patch_crosses_border"}
+
+
+def gen_single_edge(rng):
+    """keypoints up to the image edge (x ≤ W − 0.5): for output stride 4 the last os/2 − 1 px lie beyond
+    the last grid cell + half a stride (F-C02d); strides 1, 2 are the control (`in_tensor_in_range`)."""
+    os_ = rng.choice([4, 4, 2, 1])
+    ms = rng.choice([os_, 2 * os_])
+    scale = rng.choice([1.0, 1.0, 0.5])
+    H, W = 16 * rng.randrange(2, 6), 16 * rng.randrange(2, 6)
+    frs = []
+    for _ in range(rng.randrange(1, 3)):
+        pts = []
+        for k in range(3):
+            x = rng.uniform(2, W - 3) if k == 1 else rng.uniform(W - 1.9, W - 0.55)
+            y = rng.uniform(H - 1.9, H - 0.55) if k >= 1 else rng.uniform(2, H - 3)
+            pts.append([round(x * 16) / 16 + 1 / 64, round(y * 16) / 16 + 1 / 64])
+        frs.append({"H": H, "W": W, "animals": [{"centroid": [W / 2, H / 2], "pts": pts}]})
+    return {"pipeline": "single", "scale": scale, "os": os_, "ms": ms, "max_hw": [None, None], "batch": rng.randrange(1, 3),
+            "refine": None, "n_nodes": 3, "videos": [frs], "family": "keypoints_up_to_the_image_edge"}
+
+
+def gen_single_sigma_thr(rng):
+    """what the other families keep fixed: the σ of the ideal maps and the detection threshold.  A visible
+    keypoint is returned iff its ideal peak reaches the threshold (worst case exp(−1/(4σ²)) at a half-cell
+    offset: σ = 0.35 cell → 0.13 < 0.2)."""
+    case = gen_single_case(rng, refine=None)
+    case["sigma"] = rng.choice([0.35, 0.5, 0.75, 1.0, 2.5])
+    case["thr"] = rng.choice([0.05, 0.2, 0.5, 0.8])
+    case["family"] = "sigma_threshold_varied"
+    return case
+
+
+WITNESS_BAND = {"pipeline": "single", "scale": 1.0, "os": 4, "ms": 4, "max_hw": [None, None], "batch": 1,
+                "refine": None, "n_nodes": 2,
+                "videos": [[{"H": 32, "W": 32, "animals": [{"centroid": [16, 16], "pts": [[30.765625, 16.25], [16.25, 30.765625]]}]}]]}
+
+WITNESS_GTC = {"pipeline": "gtc", "si": 0.5, "os_i": 1, "ms_i": 1, "crop_hw": [32, 32], "max_hw": [None, None], "batch": 1,
+               "refine": None, "n_nodes": 2, "sc": 1.0, "os_c": 1, "ms_c": 1,
+               "videos": [[{"H": 64, "W": 96, "animals": [{"centroid": [43.0, 32.0], "pts": [[40.0, 30.0], [46.0, 34.0]]}]}]]}
+
+
+def replay_band(chk):
+    """F-C02d: 32x32, stride 4, keypoint x = 30.77 (beyond 28 + 2)"""
+    rows, _ = impl_single(WITNESS_BAND, "LabelsReader", frames_of(WITNESS_BAND))
+    p, g = WITNESS_BAND["videos"][0][0]["animals"][0]["pts"][0], rows[0]["pts"][0]
+    err = max(abs(g[0] - p[0]), abs(g[1] - p[1]))
+    return err > bound_px(4, 1.0, 1.0) + TOL, f"keypoint {p} returned at {g}: error {err:.3f} px (bound 2 px)"
+
+
+def replay_gtc(chk):
+    """F-C02c: ground-truth centroids, instance scale 0.5: keypoint (40,30)"""
+    rows, _ = impl_gtc(WITNESS_GTC, frames_of(WITNESS_GTC))
+    g = rows[0]["pts"][0]
+    err = max(abs(g[0] - 40.0), abs(g[1] - 30.0))
+    return err > bound_px(1, 0.5, 1.0) + TOL, f"keypoint (40, 30) returned at {g}"
 
 
 WITNESS_BORDER = {"pipeline": "single", "scale": 1.0, "os": 2, "ms": 2, "max_hw": [None, None], "batch": 1,
@@ -517,8 +573,19 @@ def check_single(chk, case):
             continue
         # model lines: repaired switch (pre=1) and, for LabelsReader, the as-coded one (pre=0)
         lines, deltas_all = [], []
+        thr_case = float(case.get("thr", THR))
+
+        def detectable(fr, row):
+            """the model's visibility input: a keypoint is 'visible to the pipeline' when it is labelled AND its
+            ideal peak reaches the detection threshold (hypothesis of the property; None = on the threshold)"""
+            tp = fr.animals[0].pts if fr.animals else [None] * case["n_nodes"]
+            out = []
+            for k, p in enumerate(tp):
+                pk = float(np.max(row["cms"][k])) if p is not None else 0.0
+                out.append(p if (p is not None and pk >= thr_case + 1e-3) else (None if (p is None or pk < thr_case - 1e-3) else "knife"))
+            return out
         for fr, row in zip(frames, rows):
-            pts = fr.animals[0].pts if fr.animals else [None] * case["n_nodes"]
+            pts = [None if p == "knife" else p for p in detectable(fr, row)]
             ds = []
             for k, p in enumerate(pts):
                 cx, cy, v, d = channel_peak(row["cms"][k], case["refine"])
@@ -530,7 +597,12 @@ def check_single(chk, case):
         model = yield lines
         recs = []
         for i, (fr, row) in enumerate(zip(frames, rows)):
-            pts = fr.animals[0].pts if fr.animals else [None] * case["n_nodes"]
+            true_pts = fr.animals[0].pts if fr.animals else [None] * case["n_nodes"]
+            det = detectable(fr, row)
+            if "knife" in det:
+                chk.knife_edges += 1
+                continue
+            pts = det      # what the model (and the model comparison) sees; the oracle below uses `true_pts`
             eff = float(stubs.eff_scale_nominal(fr.H, fr.W, mh, mw))
             m1, m0 = model[2 * i].split(), model[2 * i + 1].split()
             mp1, mp0 = parse_pts(m1[4:], len(pts)), parse_pts(m0[4:], len(pts))
@@ -539,7 +611,12 @@ def check_single(chk, case):
             chk.case(key if fr.animals else None,
                      {"case": "single", "provider": provider, "scale": s, "os": os_, "ms": ms, "max_hw": case["max_hw"],
                       "HW": [fr.H, fr.W], "pts": pts, "impl": row["pts"], "model": model[2 * i]},
-                     tags=[f"single:{provider}", f"scale={s}", f"os={os_}", f"refine={case['refine']}", f"B={B}",
+                     tags=[f"single:{provider}", f"scale={s}", f"os={os_}", f"ms={ms}", f"refine={case['refine']}", f"B={B}",
+                           "stride_padding_applied" if int(m1[1]) != int((mh or fr.H) * s) or int(m1[2]) != int((mw or fr.W) * s)
+                           else "no_stride_padding",
+                           "resize_truncated" if ((mh or fr.H) * s) % 1 or ((mw or fr.W) * s) % 1 else "resize_exact",
+                           "preprocess_config_override" if case.get("override_hw") else "config_max_hw",
+                           f"sigma={case.get('sigma', 1.5)}", f"thr={case.get('thr', THR)}",
                            "eff=1" if eff == 1.0 else ("eff<1" if eff < 1 else "eff>1")])
             # ---- indices (pixels say which frame this row was computed from)
             src = by_code[row["code"]]
@@ -607,7 +684,7 @@ def check_single(chk, case):
             hin = pad_to(int((mh or fr.H) * s), ms)          # Python's own float product, as the code computes it
             win = pad_to(int((mw or fr.W) * s), ms)
             thr = float(case.get("thr", THR))
-            for k, p in enumerate(pts):
+            for k, p in enumerate(true_pts):
                 if p is not None:
                     qx, qy = p[0] * eff * s, p[1] * eff * s
                     in_rng = (qx <= (math.ceil(win / os_) - 1) * os_ + os_ / 2
@@ -616,11 +693,11 @@ def check_single(chk, case):
                     if m is not None and (is_knife(m["mx"], os_) or is_knife(m["my"], os_)):
                         continue
                     pkv = float(np.max(row["cms"][k]))
-                    if pkv < thr + 1e-3:
+                    if pts[k] is None:
                         # hypothesis of the property on this side: the ideal peak reaches the detection
                         # threshold (σ small / threshold high ⇒ a visible keypoint is legitimately dropped)
                         chk.tag("visible_keypoint_below_threshold_not_asserted")
-                        if pkv < thr - 1e-3 and row["pts"][k] is not None:
+                        if row["pts"][k] is not None:
                             why.append(f"node {k}: peak value {pkv:.3f} below threshold {thr} but a coordinate was returned")
                         continue
                     if not in_rng:
@@ -653,8 +730,8 @@ def check_single(chk, case):
                                              f"{row['cms'][k].shape[1]}x{row['cms'][k].shape[0]})")
                             if w:
                                 g = row["pts"][k]
-                                capped = g is not None and max(abs(g[0] - p[0]), abs(g[1] - p[1])) <= 2 * bnd + TOL
-                                (why_border if capped else why).append(w)   # F-C02b covers at most ONE cell of error
+                                capped = g is not None and max(abs(g[0] - p[0]), abs(g[1] - p[1])) <= 3 * bnd + TOL
+                                (why_border if capped else why).append(w)   # F-C02b covers at most 1.5 cells of error (½ quantisation + ≤ 1 border bias)
                             continue
                 w = oracle_point(p, row["pts"][k], row["vals"][k], bnd, f"node {k}")
                 if w:
@@ -895,8 +972,8 @@ def check_topdown(chk, case, providers=("LabelsReader", "VideoReader")):
                             w = oracle_point(p, r["pts"][k], r["vals"][k], bnd, f"node {k} (crop cell {cx},{cy})")
                             if w:
                                 g = r["pts"][k]
-                                capped = g is not None and max(abs(g[0] - p[0]), abs(g[1] - p[1])) <= 2 * bnd + TOL
-                                (why_border if capped else why).append(w)   # F-C02b covers at most ONE cell of error
+                                capped = g is not None and max(abs(g[0] - p[0]), abs(g[1] - p[1])) <= 3 * bnd + TOL
+                                (why_border if capped else why).append(w)   # F-C02b covers at most 1.5 cells of error (½ quantisation + ≤ 1 border bias)
                             continue
                 w = oracle_point(p, r["pts"][k], r["vals"][k], bnd, f"node {k}")
                 if w:
@@ -995,15 +1072,17 @@ def check_gtc(chk, case):
                  tags=["topdown_gt_centroids", f"si={case['si']}", f"os_i={os_i}", f"refine={refine}"])
         if (r["fidx"], r["vidx"]) != (fr.frame_idx, fr.video):
             chk.fail("C12: crop row carries the indices of another frame", small, [r["fidx"], r["vidx"]])
-        bad, knife, as_is_match = [], False, case["si"] != 1.0
+        bad, knife, as_is_match, n_ret = [], False, case["si"] != 1.0, 0
         for k, (p, g, m) in enumerate(zip(an.pts, r["pts"], mp)):
             if p is None:
                 if g is not None or r["vals"][k] != 0.0 or r["nanpat"][k] != [True, True]:
                     bad.append(k)
                 continue
             ax, ay = float(unrat(at[2 * k])), float(unrat(at[2 * k + 1]))
-            if g is None or abs(g[0] - ax) > TOL or abs(g[1] - ay) > TOL:
-                as_is_match = False
+            if g is not None:
+                n_ret += 1
+                if abs(g[0] - ax) > TOL or abs(g[1] - ay) > TOL:
+                    as_is_match = False      # (a keypoint the mis-scaled crop lost to NaN says nothing either way)
             if is_knife(m["mx"], os_i) or is_knife(m["my"], os_i):
                 knife = True
                 continue
@@ -1035,7 +1114,7 @@ def check_gtc(chk, case):
                 w = oracle_point(p, r["pts"][k], r["vals"][k], bnd, f"node {k}")
             if w:
                 why.append(w)
-        if bad and as_is_match:
+        if as_is_match and n_ret > 0 and (bad or why):
             # structural predicate of F-C02c: instance scale ≠ 1 and the answer is exactly what cropping
             # BEFORE the pre-crop resize (and still dividing by the scale) gives
             chk.tag("gt_centroids_as_before_fix")
@@ -1139,10 +1218,11 @@ def main(chk: Check):
         chk.known_replay("F-C02", still_fails=still, detail=detail)
         chk.extra["F-C02_witness"] = detail
 
-    if any(e["id"] == "F-C02b" for e in chk.known):
-        still, detail = replay_border(chk)
-        chk.known_replay("F-C02b", still_fails=still, detail=detail)
-        chk.extra["F-C02b_witness"] = detail
+    for fid, fn in (("F-C02b", replay_border), ("F-C02c", replay_gtc), ("F-C02d", replay_band)):
+        if any(e["id"] == fid for e in chk.known):
+            still, detail = fn(chk)
+            chk.known_replay(fid, still_fails=still, detail=detail)
+            chk.extra[fid + "_witness"] = detail
     cases = []
     for f in sorted((CORPUS / "C02").glob("*.json")) if (CORPUS / "C02").exists() else []:
         cases.append(json.loads(f.read_text()))
@@ -1156,6 +1236,10 @@ def main(chk: Check):
         cases.append(gen_gtc_case(rng, refine=("integral" if i % 3 == 2 else None)))
     for i in range(chk.n(8, 80)):
         cases.append(gen_single_border(rng))
+    for i in range(chk.n(8, 80)):
+        cases.append(gen_single_edge(rng))
+    for i in range(chk.n(8, 80)):
+        cases.append(gen_single_sigma_thr(rng))
     for i in range(chk.n(14, 150)):
         cases.append(gen_topdown_focus(rng, refine=("integral" if i % 4 == 3 else None)))
     run_cases(chk, cases)
